@@ -20,7 +20,9 @@ RULE = ("random loop-free networks on rasters <= 56 cells (quick) / <= 400 (thor
         "outlet); stream orders = "
         "Strahler (default and explicit), classic, random; thresholds min_sto in -3..4, area_min 0..half the "
         "largest area incl. values equal to an upstream area; upstream areas = cell counts (many ties), "
-        "accumulated random cell areas in quarters (few ties), arbitrary fields; upa_min None/0/a value of the "
+        "accumulated random cell areas in quarters (few ties), arbitrary fields; cell order = order_cells('sort') or, "
+        "for a quarter of the networks, order_cells('walk') (the op reports whether the order is sorted by the distance to "
+        "the pit, the hypothesis of theorem area_size); upa_min None/0/a value of the "
         "field; depths 1..3; index dtypes int32/int64/uint32. non-trivial = >= 2 valid cells, >= 1 confluence, "
         "path length >= 3; distinct = SHA-1 of (op, network, parameters). thorough: additionally 700 networks in a "
         "child process with Numba compilation enabled (same generators and judges)")
@@ -218,8 +220,13 @@ def run(ctx):
         except ValueError:
             ctx.count("ctor-rejected")
             continue
+        order = "sort"
+        if rng.random() < 0.25:     # the breadth-first order of order_cells("walk"): also sorted by distance to the pit
+            flw.order_cells(method="walk")
+            order = "walk"
+        ctx.count("order:" + order)
         seq = canon_idx(flw.idxs_seq, n)
-        base = {"ds": ds, "shape": list(shape), "dtype": np.dtype(dt).name, "jit": JIT}
+        base = {"ds": ds, "shape": list(shape), "dtype": np.dtype(dt).name, "jit": JIT, "order": order}
         env = {"flw": flw, "ds": ds, "n": n, "seq": seq, "shape": shape, "base": base, "nontriv": nontriv,
                "hint": gen_net.hint}
         _streamorder(ctx, rng, env)
@@ -374,6 +381,12 @@ def _area(ctx, rng, env):
             fs.append({"kind": "spec", "what": "cell order handed to the kernel is not downstream-first (C03 hypothesis)"})
         if a["usok"] != [1]:
             fs.append({"kind": "spec", "what": "idxs_us_main is not a map to inflowing cells"})
+        if a["rank_sorted"] != [1]:
+            fs.append({"kind": "spec", "what": "cell order handed to subbasins_area is not sorted by the distance to the pit "
+                       "(hypothesis of theorem area_size; both order_cells methods should supply it)"})
+        if a["acc_ok"] != [1]:
+            fs.append({"kind": "model", "what": "harness: the generated upstream-area field is not the accumulation of its "
+                       "non-negative cell areas (hypothesis of theorem area_size)"})
         out = {"impl_labels": impl_l, "impl_idxs": impl_o}
         if a["impl.sub_ok"] != [1]:
             fs.append({"kind": "spec", "what": "area sub-basin map is not the first-outlet partition of its outlets", **out})
